@@ -110,7 +110,7 @@ pub fn build(s: &Scenario) -> Built {
     // obstacles are placed relative to the tool tip at the landing configuration
     let tip = land.t;
     let r: f32 = if s.safety == 0 { 0.0 } else { 0.03 };
-    let bx = |lo: V3, hi: V3| EnvObj { lo: [lo[0] as f32, lo[1] as f32, lo[2] as f32], hi: [hi[0] as f32, hi[1] as f32, hi[2] as f32], subdiv: 1, pose: Iso::identity() };
+    let bx = |lo: V3, hi: V3| EnvObj { lo: [lo[0] as f32, lo[1] as f32, lo[2] as f32], hi: [hi[0] as f32, hi[1] as f32, hi[2] as f32], subdiv: 1, pose: Iso::identity(), shape: 0 };
     cell.envs = match s.obstacle {
         // a plate under the stroke: the tool tip passes `gap` above it on the lowest leg
         1 | 2 => {
